@@ -17,7 +17,7 @@ class C02(Spec):
         Stream("images", "crash", c01.REFDB, "run_crash_case",
                c01.images([["rollback", "open"], ["rollback", "open", "ddl"], ["rollback", "open", "ckpt"], ["rollback", "open", "steal"],
                            ["rollback", "open", "vacuum", "ddl"], ["rollback", "bulk"], ["abort-ckpt"]], 90, 600, big=3),
-               canon=CG.model_canon, canon_case=CG.make_canon(check_flags=False), rust_shards=16, shard=3, reference=True, measure=CG.measure),
+               canon=CG.model_canon, canon_case=CG.make_canon(check_flags=False, check_reopen=True), rust_shards=16, shard=3, reference=True, measure=CG.measure),
         Stream("simple", "crash", [], None, c01.simple(60, 600), oracle=CG.simple_oracle, rust_shards=16, measure=CG.measure),
         Stream("protocol", "crash", c01.CRASH, "run_protocol_case", c01.protocol(60, 800),
                canon=CG.protocol_canon_model, canon_case=CG.protocol_canon_case, rust_shards=16, shard=20, measure=CG.measure),
